@@ -6,6 +6,8 @@ explored history is compared with the digest the same call produces when it is t
 interpreter.  Coverage: depth-2 histories from the fresh state (trie), every ordered pair of the full alphabet
 adjacent once (de Bruijn B(n,2) = Eulerian circuit of the complete digraph), every ordered triple of the core
 alphabet (B(k,3)), RNG pre-states, NUMBA_NUM_THREADS x Dask scheduler grid.
+Lazy results: every ordered pair of Dask calls made while the other's result is still lazy, each then computed and compared
+with the call made and computed alone.
 E3d: all <= p-preemption interleavings of two public calls at Python line granularity (interpreted mode).
 E3e: parallel-kernel gate (dispatchers compiled with parallel=True are re-run with their prange iterations split
 over two interleaved threads)."""
@@ -368,6 +370,97 @@ class ParallelGate(Space):
             out.sample({"kernel": "%s.%s" % (modname, fname), "status": res["status"], "schedules": res["executions"]})
 
 
+def _lazy_letters():
+    """name -> thunk returning a LAZY (Dask-backed, not yet computed) result."""
+    import xrspatial as xs
+    from xrspatial import classify, focal, multispectral as ms
+    from ..history.letters import _base, _da, _targets
+    CH = ((2, 3), (3, 3))
+    z = lambda: _da(np.zeros((5, 6)), CH)      # noqa: E731
+    b = lambda: _da(_base(), CH)               # noqa: E731
+    t = lambda: _da(_targets(), CH)            # noqa: E731
+    k33 = np.array([[0, 1, 0], [1, 1, 1], [0, 1, 0.0]])
+    return {
+        "perlin_s5": lambda: xs.perlin(z()),
+        "perlin_s6": lambda: xs.perlin(z(), seed=6),
+        "perlin_s0_f31": lambda: xs.perlin(z(), seed=0, freq=(3, 1)),
+        "terrain_s3": lambda: xs.generate_terrain(z(), seed=3),
+        "terrain_s4_window": lambda: xs.generate_terrain(z(), seed=4, x_range=(10, 40), y_range=(-5, 20)),
+        "proximity_md1.5": lambda: xs.proximity(t(), max_distance=1.5),
+        "allocation_md2.5": lambda: xs.allocation(t(), max_distance=2.5),
+        "direction": lambda: xs.direction(t()),
+        "slope": lambda: xs.slope(b()),
+        "hillshade_az100": lambda: xs.hillshade(b(), azimuth=100, angle_altitude=30),
+        "mean_p2": lambda: focal.mean(b(), passes=2),
+        "apply_3x3": lambda: focal.apply(b(), k33),
+        "hotspots_3x3": lambda: focal.hotspots(b(), k33),
+        "savi_0.25": lambda: ms.savi(b(), b() + 1.0, soil_factor=0.25),
+        "savi_0.75": lambda: ms.savi(b(), b() + 1.0, soil_factor=0.75),
+        "equal_interval_k3": lambda: classify.equal_interval(b(), k=3),
+        "reclassify": lambda: classify.reclassify(b(), bins=[1, 4, 9], new_values=[1, 2, 3]),
+    }
+
+
+class LazyPairSpace(Space):
+    """Two calls whose Dask results are still LAZY when the other call is made: a = A(...); b = B(...); a.compute(); b.compute().
+    Each computed result must equal that call made and computed alone (the reference is taken first, in the same fresh
+    interpreter, before any pair).  Covers every ordered pair of the lazy alphabet, (A, A) included."""
+    phase = 1
+
+    def __init__(self, tier):
+        self.tier = tier
+        self.name = "lazy_results_pairs"
+        self.names = None
+        self.n = 17
+        self.size = self.n * self.n
+        self.grain = self.n
+        self.weight = 4.0
+
+    def describe(self, rank):
+        names = sorted(_lazy_letters_names())
+        a, b = divmod(rank, self.n)
+        return {"first_call_lazy": names[a], "second_call_lazy": names[b], "then": "compute first, compute second"}
+
+    def setup(self):
+        import dask
+        dask.config.set(scheduler="synchronous")
+        from ..history import letters
+        self.digest = letters.result_digest
+        self.L = _lazy_letters()
+        self.names = sorted(self.L)
+        assert len(self.names) == self.n
+        self.ref = {}
+
+    def solo(self, name):
+        if name not in self.ref:
+            self.ref[name] = self.digest(self.L[name]().compute())
+        return self.ref[name]
+
+    def run(self, lo, hi, out):
+        for rank in range(lo, hi):
+            ia, ib = divmod(rank, self.n)
+            na, nb = self.names[ia], self.names[ib]
+            ra, rb = self.solo(na), self.solo(nb)
+            a = self.L[na]()
+            b = self.L[nb]()
+            da_, db = self.digest(a.compute()), self.digest(b.compute())
+            again = self.digest(a.compute())
+            out.case(outcome=(na, nb, da_, db), nontrivial=na != nb, calls=2)
+            out.ok()
+            for which, nm, d, r in (("first", na, da_, ra), ("second", nb, db, rb), ("first, computed again", na, again, ra)):
+                if d != r:
+                    out.violation(rank, "c11|lazy|%s+%s|%s" % (na, nb, which.split(",")[0]),
+                                  "%s (lazy) then %s (lazy): the %s result, once computed, differs from the same call made and "
+                                  "computed alone" % (na, nb, which), case=self.describe(rank), observed=d, expected=r)
+                    break
+
+
+def _lazy_letters_names():
+    return ["allocation_md2.5", "apply_3x3", "direction", "equal_interval_k3", "hillshade_az100", "hotspots_3x3", "mean_p2",
+            "perlin_s0_f31", "perlin_s5", "perlin_s6", "proximity_md1.5", "reclassify", "savi_0.25", "savi_0.75", "slope",
+            "terrain_s3", "terrain_s4_window"]
+
+
 def build(tier):
     allnames, core = letter_names(tier)
     n = len(allnames)
@@ -382,5 +475,5 @@ def build(tier):
     # depth-2 histories from the fresh state
     kt = core[:6] if tier == "quick" else core
     sp.append(HistorySpace(tier, "depth2_from_fresh_state", [[a, b] for a in kt for b in kt], 2))
-    sp += [RngSpace(tier), ThreadGrid(tier), InterleaveSpace(tier), ParallelGate(tier)]
+    sp += [RngSpace(tier), LazyPairSpace(tier), ThreadGrid(tier), InterleaveSpace(tier), ParallelGate(tier)]
     return sp
